@@ -7,6 +7,7 @@ import (
 	"strings"
 
 	"olverif/internal/hist"
+	"olverif/internal/proto"
 )
 
 func feeTotal(s hist.State) *big.Int {
@@ -83,6 +84,7 @@ func C17(blk *hist.Block) []Finding {
 	if !otherPayers && dFees.Cmp(wantFees) != 0 && !proposalFinalised(blk) {
 		out = append(out, Finding{"C17", "C17/fee-pool/not-gas-used-times-price", fmt.Sprintf("block %d: fee records grew by %s, gas used times price of the executed transactions is %s", blk.H, dFees, wantFees)})
 	}
+	out = append(out, simpleBlock(blk)...)
 	senders := map[string]int{}
 	for _, t := range olvm {
 		senders[t.Meta["from"]]++
@@ -170,4 +172,76 @@ func C17View(s hist.State, evm map[string][2]string, h int64) []Finding {
 		}
 	}
 	return out
+}
+
+// simpleBlock: when every executed transaction of the block is a native OLT transfer or a plain EVM transfer
+// between externally owned accounts, each account's OLT delta is predicted exactly from the transactions
+// (amounts, values and gasUsed x price), whatever their order: the EVM and the native ledger are one ledger.
+func simpleBlock(blk *hist.Block) []Finding {
+	want := map[string]*big.Int{}
+	n := 0
+	for _, t := range blk.Txs {
+		if t.Call.Code != 0 {
+			continue
+		}
+		switch {
+		case t.Kind == "SEND":
+			p := Payload(t.Bytes)
+			am, _ := pField(p, "amount").(map[string]interface{})
+			if am == nil || am["currency"] != "OLT" {
+				return nil
+			}
+			a := PAmount(p, "amount")
+			addTo(want, PString(p, "from"), new(big.Int).Neg(new(big.Int).Add(a, txFee(t))))
+			addTo(want, PString(p, "to"), a)
+		case t.Kind == "OLVM" && t.Meta["data"] == "" && t.Meta["to"] != "" && t.Meta["create"] == "":
+			if _, isContract := blk.Prev["keeper_"+rawOf(t.Meta["to"])]; isContract && keeperHasCode(blk.Prev, rawOf(t.Meta["to"])) {
+				return nil
+			}
+			v := bigOf(t.Meta["value"])
+			addTo(want, t.Meta["from"], new(big.Int).Neg(new(big.Int).Add(v, txFee(t))))
+			addTo(want, t.Meta["to"], v)
+			n++
+		default:
+			return nil
+		}
+	}
+	if n == 0 {
+		return nil
+	}
+	var out []Finding
+	out = append(out, Finding{"COUNT", "observed:simple-mixed-blocks", ""})
+	// block hooks pay matured undelegations and rewards into balances: accounts the block's own events name
+	// are left out
+	hookText := ""
+	for _, c := range []proto.Call{blk.Begin, blk.End} {
+		for _, e := range c.Events {
+			for _, kv := range e.Attrs {
+				hookText += kv.K + "=" + kv.V + ";"
+			}
+		}
+	}
+	for a, w := range want {
+		if strings.Contains(hookText, a) || strings.Contains(strings.ToLower(hookText), strings.TrimPrefix(a, "0lt")) {
+			continue
+		}
+		d := new(big.Int).Sub(amountAt(blk.Cur, "b_"+a+"_OLT"), amountAt(blk.Prev, "b_"+a+"_OLT"))
+		if d.Cmp(w) != 0 {
+			out = append(out, Finding{"C17", "C17/one-ledger/account-delta-differs", fmt.Sprintf("block %d (only native and plain EVM transfers): OLT balance of %s changed by %s, the executed transactions give %s", blk.H, a, d, w)})
+		}
+	}
+	return out
+}
+
+func keeperHasCode(s hist.State, raw string) bool {
+	v, ok := s["keeper_"+raw]
+	if !ok {
+		return false
+	}
+	var rec struct {
+		CodeHash []byte `json:"codeHash"`
+	}
+	_ = json.Unmarshal(v, &rec)
+	empty := "c5d2460186f7233c927e7db2dcc703c0e500b653ca82273b7bfad8045d85a470"
+	return len(rec.CodeHash) > 0 && fmt.Sprintf("%x", rec.CodeHash) != empty
 }
